@@ -930,6 +930,10 @@ fn emit_family(prop: &str, seed: u64, quick: bool, out: &mut Vec<Fail>) -> usize
             let o = build_modules(&mods_ref, ptr);
             GEN_STATS.with(|g| { let (a, t) = g.get(); g.set((a + matches!(o, Outcome::Ok(_)) as usize, t + 1)); });
             match o {
+                Outcome::Ok(_) if expect.reject_name_clash.is_some() => {
+                    // two re-exposed functions would carry the same name: neither is callable (C07, F26)
+                    if prop == "C07" { out.push(Fail { family: "gen", input: join_sources(&mods_ref), ptr, expected: format!("rejected: {}", expect.reject_name_clash.clone().unwrap_or_default()), actual: "accepted".into() }); }
+                }
                 Outcome::Ok(st) => {
                     // the generator laid every item out itself (explicit padding, explicit alignment): the resolved size and
                     // alignment must be the ones it computed (C02; C11 because the sizes of referenced types go in)
@@ -1012,6 +1016,7 @@ fn emit_family(prop: &str, seed: u64, quick: bool, out: &mut Vec<Fail>) -> usize
                     for x in &e.viols { emit_fail(out, prop, join_sources(&mods_ref), ptr, x); }
                 }
                 Outcome::Panic(m) => { if prop == "C12" { out.push(Fail { family: "gen", input: join_sources(&mods_ref), ptr, expected: "Ok or Err".into(), actual: format!("PANIC({m})") }); } }
+                Outcome::Err(_) if expect.reject_name_clash.is_some() => {}
                 Outcome::Err(m) => {
                     // a program of this generator is realisable, every name is defined and nothing embeds itself by value
                     if ["C03", "C10", "C11", "C06"].contains(&prop) {
@@ -1028,9 +1033,14 @@ fn emit_family(prop: &str, seed: u64, quick: bool, out: &mut Vec<Fail>) -> usize
         for (_label, mods) in emit_corpus::corpus() {
             if no_corpus { break; }
             n += 1;
-            if let Outcome::Ok(st) = build_modules(&mods, ptr) {
-                let e = emit_checked(ptr, &st, &mods, &dir);
-                for x in &e.viols { emit_fail(out, prop, join_sources(&mods), ptr, x); }
+            match build_modules(&mods, ptr) {
+                Outcome::Ok(st) => {
+                    let e = emit_checked(ptr, &st, &mods, &dir);
+                    for x in &e.viols { emit_fail(out, prop, join_sources(&mods), ptr, x); }
+                }
+                // every corpus program is realisable, fully defined and acyclic at both pointer sizes (the `corpus` mode of this
+                // tool lists them): a rejection is a spurious rejection (C03 layout / C10 resolution), never a silent skip
+                o => { if ["C03", "C10"].contains(&prop) { out.push(Fail { family: "emit", input: join_sources(&mods), ptr, expected: format!("corpus program `{_label}` accepted"), actual: o.tag() }); } }
             }
         }
         if prop == "C20" {
@@ -1082,6 +1092,8 @@ fn fs_family(prop: &str, out: &mut Vec<Fail>) -> usize {
         ("empty-module", vec![("a.pyxis", "pub type A { pub a: u32 }\n"), ("nothing.pyxis", "\n"), ("only/docs.pyxis", "//! just docs\n")]),
         ("not-pyxis", vec![("a.pyxis", "pub type A { pub a: u32 }\n"), ("readme.txt", "hello\n"), ("sub/notes.md", "x\n")]),
         ("same-names", vec![("x/t.pyxis", "pub type T { pub a: u32 }\n"), ("y/t.pyxis", "pub type T { pub a: u64 }\n"), ("t.pyxis", "pub type T { pub a: u8 }\n")]),
+        // a module that declares nothing but extern values (no type, no doc, no backend block) still gets its file and its accessors
+        ("externs-only", vec![("a.pyxis", "pub type A { pub a: u32 }\n"), ("globals.pyxis", "use a::A;\n#[address(0x1000)]\npub extern counter: u32;\n#[address(0x2000)]\npub extern first: *mut A;\n")]),
     ];
     fn walk(d: &Path, base: &Path, v: &mut Vec<String>) { if let Ok(rd) = std::fs::read_dir(d) { for e in rd.flatten() { let p = e.path(); if p.is_dir() { walk(&p, base, v) } else { v.push(p.strip_prefix(base).unwrap_or(&p).to_string_lossy().replace('\\', "/")) } } } }
     let mut n = 0;
@@ -1113,7 +1125,15 @@ fn fs_family(prop: &str, out: &mut Vec<Fail>) -> usize {
                     let mut got = vec![];
                     walk(&outd, &outd, &mut got);
                     got.sort();
-                    if prop == "C14" && got != want { out.push(Fail { family: "fs", input, ptr: 8, expected: format!("exactly one output file per input module at the same relative path: {want:?}"), actual: format!("{got:?}") }); }
+                    if prop == "C14" && got != want { out.push(Fail { family: "fs", input: input.clone(), ptr: 8, expected: format!("exactly one output file per input module at the same relative path: {want:?}"), actual: format!("{got:?}") }); }
+                    if prop == "C15" && *label == "externs-only" {
+                        let text = std::fs::read_to_string(outd.join("globals.rs")).unwrap_or_default();
+                        for (acc, addr) in [("get_counter", "0x1000"), ("get_first", "0x2000")] {
+                            if !(text.contains(acc) && text.to_lowercase().contains(addr)) {
+                                out.push(Fail { family: "fs", input: input.clone(), ptr: 8, expected: format!("globals.rs with the accessor `{acc}` for address {addr}"), actual: if text.is_empty() { "globals.rs was not written".into() } else { text.chars().take(300).collect() } });
+                            }
+                        }
+                    }
                 }
             }
         }
@@ -1142,6 +1162,41 @@ fn fs_family(prop: &str, out: &mut Vec<Fail>) -> usize {
         n += 1;
         if r.is_err() && prop == "C12" { out.push(Fail { family: "fs", input: format!("add_file(\"/nonexistent-base\", {:?})", outside), ptr: 8, expected: "Ok or Err".into(), actual: "PANIC".into() }); }
         if let Some(c) = &cwd { let _ = std::env::set_current_dir(c); }
+        let _ = std::fs::remove_dir_all(&base);
+    }
+    // ---- a second build into an output directory that already holds the result of an earlier one (C05 C14): after an input
+    // changed, every output file must be what a build into an empty directory gives - also the files of modules whose own
+    // source did not change but which re-expose something of the changed module
+    if ["C05", "C14", "C07"].contains(&prop) {
+        let base = root.join("rebuild");
+        let _ = std::fs::remove_dir_all(&base);
+        let ind = base.join("types");
+        let _ = std::fs::create_dir_all(&ind);
+        let base_src = |addr: &str| format!("pub type Base {{ pub x: u32 }}\nimpl Base {{\n    #[address({addr})]\n    pub fn make(a: u32) -> u32;\n    #[address(0x500)]\n    pub fn get(&self) -> u32;\n}}\n");
+        let _ = std::fs::write(ind.join("base.pyxis"), base_src("0x401000"));
+        let _ = std::fs::write(ind.join("derived.pyxis"), "use base::Base;\npub type Derived { #[base] pub base: Base, pub y: u32 }\n");
+        let out1 = base.join("out");
+        let fresh = base.join("fresh");
+        let r1 = catch_unwind(AssertUnwindSafe(|| pyxis::build(&ind, &out1, 8)));
+        // make sure the outputs of the first build are older than the edit and newer than the untouched source
+        std::thread::sleep(std::time::Duration::from_millis(1100));
+        let _ = std::fs::write(ind.join("base.pyxis"), base_src("0x402000"));
+        let r2 = catch_unwind(AssertUnwindSafe(|| pyxis::build(&ind, &out1, 8)));
+        let r3 = catch_unwind(AssertUnwindSafe(|| pyxis::build(&ind, &fresh, 8)));
+        n += 3;
+        let input = "types/base.pyxis (impl Base { #[address(A)] pub fn make(a: u32) -> u32; .. }), types/derived.pyxis (Derived { #[base] base: Base }): build, change A from 0x401000 to 0x402000, build again into the same directory".to_string();
+        match (r1, r2, r3) {
+            (Ok(Ok(())), Ok(Ok(())), Ok(Ok(()))) => {
+                for f in ["base.rs", "derived.rs"] {
+                    let a = std::fs::read_to_string(out1.join(f)).ok();
+                    let b = std::fs::read_to_string(fresh.join(f)).ok();
+                    if a != b || a.is_none() {
+                        out.push(Fail { family: "fs", input: input.clone(), ptr: 8, expected: format!("{f} of the second build identical to a build into an empty directory"), actual: first_diff(a.as_ref(), b.as_ref()) });
+                    }
+                }
+            }
+            (a, b, c) => { if prop == "C14" { out.push(Fail { family: "fs", input, ptr: 8, expected: "three accepted builds".into(), actual: format!("{:?} {:?} {:?}", a.map(|r| r.map_err(|e| format!("{e:#}"))).map_err(|_| "PANIC"), b.map(|r| r.map_err(|e| format!("{e:#}"))).map_err(|_| "PANIC"), c.map(|r| r.map_err(|e| format!("{e:#}"))).map_err(|_| "PANIC")) }); } }
+        }
         let _ = std::fs::remove_dir_all(&base);
     }
     let _ = std::fs::remove_dir_all(&root);
@@ -1207,7 +1262,7 @@ fn run_family(prop: &str, seed: u64, quick: bool, out: &mut Vec<Fail>) -> usize 
     // hangs and panics first: once a few inputs are known to hang there is no point in paying ten seconds each for more
     if ["C12", "C03"].contains(&prop) && shard_family(0) { n += absurd_family(out); }
     if prop == "C12" && out.len() >= 3 { return n; }
-    if ["C14", "C12"].contains(&prop) && shard_family(1) { n += fs_family(prop, out); }
+    if ["C14", "C12", "C15", "C05", "C07"].contains(&prop) && shard_family(1) { n += fs_family(prop, out); }
     if prop == "C12" && shard_family(2) { n += mutation_family(seed, quick, out); }
     if prop == "C12" && out.len() >= 3 { return n; }
     if EMIT_PROPS.contains(&prop) {
